@@ -958,12 +958,19 @@ def run(ctx):
         cases.append(c)
     ctx.log("cases: %d (fixed probes %d, rejection grid %d)" % (len(cases), nfixed, ngrid))
     results = run_cases(ctx, cases)
+    # re-entrant / interleaved use of the helpers of one container object (Model/Cursors.v)
+    from props import c17_cursors
+    c17_cursors.run(ctx)
     ctx.log("checking process done; the same calls with -O / PYTHONOPTIMIZE=1")
     optimised_probe(ctx, cases, results)
 
 
 def replay(ctx, body):
     rp = body.get("replay", body)
+    if rp.get("cursors"):
+        from props import c17_cursors
+        c17_cursors.replay(ctx, rp)
+        return
     results = run_cases(ctx, [rp["case"]])
     if rp.get("mode"):
         optimised_probe(ctx, [rp["case"]], results, modes=[rp["mode"]])
